@@ -86,7 +86,42 @@ RoundDescs == Flatten2([i \in DOMAIN GridSeq |->
                 IF Len(g) = 0 \/ Len(g) > 4 THEN <<>>
                 ELSE << <<"rt-patch", g, [k \in DOMAIN g |-> IF g[k] > 1 THEN g[k] - 1 ELSE 1]>>, <<"rt-concat", g, ((i + Seed) % Len(g))>> >>])
 
-All == SliceDescs \o PatchDescs \o ConcatDescs \o ReshapeDescs \o DimDescs \o BcastDescs \o CtorDescs \o RoundDescs
+(* ---- chains: every sequence of three data-movement steps applied to a running tensor.  Single operations on  *)
+(* fresh tensors cannot see state carried from one operation's result into the next (caches, shared storage).   *)
+StepKinds == <<"flatten", "unsq0", "unsqN", "transpose", "reverse", "copy", "row", "patch-target", "patch-source", "concat", "bcast">>
+(* the instructions of one step applied to node cur of shape d; base = id of the first node it creates *)
+StepOf(kind, cur, d, base) ==
+  LET r == Len(d) n == IF r > 0 THEN d[1] ELSE 1
+  IN CASE kind = "flatten" /\ r >= 1 -> [code |-> <<Ins("flatten", [dim |-> 0], <<cur>>)>>, dims |-> <<Prod(d)>>]
+       [] kind = "unsq0" -> [code |-> <<Ins("unsqueeze", [dim |-> 0], <<cur>>)>>, dims |-> <<1>> \o d]
+       [] kind = "unsqN" -> [code |-> <<Ins("unsqueeze", [dim |-> r], <<cur>>)>>, dims |-> d \o <<1>>]
+       [] kind = "transpose" /\ r >= 2 -> [code |-> <<Ins("transpose", NoPar, <<cur>>)>>, dims |-> SwapLast2(d)]
+       [] kind = "reverse" /\ r >= 2 -> [code |-> <<Ins("reshape", [shape |-> [i \in 1..r |-> d[r + 1 - i]]], <<cur>>)>>, dims |-> [i \in 1..r |-> d[r + 1 - i]]]
+       [] kind = "copy" -> [code |-> <<Ins("slice", [index |-> <<>>], <<cur>>)>>, dims |-> d]
+       [] kind = "row" /\ r >= 1 /\ n >= 2 -> [code |-> <<Ins("slice", [index |-> <<<<1, n>>>>], <<cur>>)>>, dims |-> SetDim(d, 1, n - 1)]
+       [] kind = "patch-target" /\ r >= 1 /\ n >= 2 ->       \* overwrite the last row of cur with its negated first row
+            [code |-> <<Ins("slice", [index |-> <<<<0, 1>>>>], <<cur>>), Ins("scale", [k |-> MinusOne], <<base>>),
+                        Ins("patch", [index |-> <<<<n - 1, n>>>>], <<cur, base + 1>>)>>, dims |-> d]
+       [] kind = "patch-source" /\ r >= 1 ->                 \* write cur into the second half of a zeroed tensor twice its size
+            [code |-> <<Ins("concat", [dim |-> 0], <<cur, cur>>), Ins("scale", [k |-> Zero], <<base>>),
+                        Ins("patch", [index |-> <<<<n, 2 * n>>>>], <<base + 1, cur>>)>>, dims |-> SetDim(d, 1, 2 * n)]
+       [] kind = "concat" /\ r >= 1 -> [code |-> <<Ins("concat", [dim |-> r - 1], <<cur, cur>>)>>, dims |-> SetDim(d, r, 2 * d[r])]
+       [] kind = "bcast" /\ r <= 3 -> [code |-> <<Ins("broadcast", [shape |-> <<2>> \o d], <<cur>>)>>, dims |-> <<2>> \o d]
+       [] OTHER -> [code |-> <<>>, dims |-> d]
+RECURSIVE ChainCode(_, _, _, _, _)
+ChainCode(kinds, i, cur, d, code) ==
+  IF i > Len(kinds) THEN code
+  ELSE LET st == StepOf(kinds[i], cur, d, 2 + Len(code))
+       IN IF st.code = <<>> THEN <<>>                           \* step not applicable: drop the chain
+          ELSE ChainCode(kinds, i + 1, 1 + Len(code) + Len(st.code), st.dims, code \o st.code)
+ChainBases == <<<<2, 3>>, <<3, 1, 2>>>>
+ChainLen == IF Thorough THEN 4 ELSE 3
+ChainDescs == Flatten2([b \in DOMAIN ChainBases |->
+                LET ks == SetToSeq([1..ChainLen -> 1..Len(StepKinds)])
+                IN SelectSeq([j \in DOMAIN ks |-> <<"chain", ChainBases[b], [i \in 1..ChainLen |-> StepKinds[ks[j][i]]]>>],
+                             LAMBDA e : ChainCode(e[3], 1, 1, e[2], <<>>) # <<>>)])
+
+All == ChainDescs \o SliceDescs \o PatchDescs \o ConcatDescs \o ReshapeDescs \o DimDescs \o BcastDescs \o CtorDescs \o RoundDescs
 Descs == MyCases(All)
 
 I1(d) == <<In("a", d, FALSE)>>
@@ -102,6 +137,9 @@ Build(d) ==
     [] d[1] \in {"unsqueeze", "flatten", "squeeze"} ->
          MkCase("c06", d[1], I1(d[2]), <<"iota">>, <<Ins(d[1], [dim |-> d[3]], <<1>>)>>, <<2>>, 0, TRUE)
     [] d[1] = "broadcast" -> MkCase("c06", "broadcast", I1(d[2]), <<"iota">>, <<Ins("broadcast", [shape |-> d[3]], <<1>>)>>, <<2>>, 0, TRUE)
+    [] d[1] = "chain" ->
+         LET code == ChainCode(d[3], 1, 1, d[2], <<>>)
+         IN MkCase("c06", "chain", I1(d[2]), <<"iota">>, code, [i \in DOMAIN code |-> i + 1], 0, TRUE)
     [] d[1] = "ctor" -> MkCase("c06", "full-zeros-ones", <<>>, <<>>,
                                <<Ins("full", [shape |-> d[2], k |-> Q(-7, 2)], <<>>), Ins("zeros", [shape |-> d[2]], <<>>), Ins("ones", [shape |-> d[2]], <<>>)>>,
                                <<1, 2, 3>>, 0, TRUE)
